@@ -2,7 +2,7 @@
    alike from every value: nav1f) are both accepted and return the same results, or both fail; and the spellings that mean
    the same: .name / ['name'] / ["name"], .* / [*], an index or slice bound with a plus sign or leading zeros, a number
    literal written differently, a filter whose inner steps are respelled. *)
-From JP Require Import Peg Grammar Slice Text Tree Actions Json Eval WF Spec SortFacts EvalInv1 EvalInv4 EvalTop EndToEnd Codec KeyDefs KeyParse IdxParse SliceParse UnionParse WildParse RecParse ChainParse SpacePath FunParse AggParse FiltParse CmpParse NegFilt LitParse RootOp RegexOp QueryParse FiltSpace QuerySpace QueryTree FiltChain ChainAddr FunAddr AggAddr FiltAddr CmpAddr QueryAddr FiltChainAddr.
+From JP Require Import Peg Grammar Slice Text Tree Actions Json Eval WF Spec SortFacts EvalInv1 EvalInv4 EvalTop EndToEnd Codec KeyDefs KeyParse IdxParse SliceParse UnionParse WildParse RecParse ChainParse SpacePath FunParse AggParse FiltParse CmpParse NegFilt LitParse RootOp RegexOp LitLeft QueryParse FiltSpace QuerySpace QueryTree FiltChain ChainAddr FunAddr AggAddr FiltAddr CmpAddr QueryAddr FiltChainAddr.
 From Coq Require Import Lia.
 Open Scope list_scope.
 
@@ -122,6 +122,9 @@ Section SpellText.
   (* blanks inside a query in disjunctive form — after `?(`, `!`, around operators, after every basic query, `&&` and `||` — change nothing *)
   Lemma spaced_query_spellings g0 d : same_step (FQ (unspace_dnf d)) (FQS g0 d).
   Proof. intros root lv. reflexivity. Qed.
+  (* the literal on the left: `1<@.a` means `@.a>1` (the parser exchanges the operands and mirrors an ordering) *)
+  Lemma literal_left_spellings i o lit : same_step (FQ [[BC i o lit]]) (FQ [[BCL lit (mirror_op o) i]]).
+  Proof. intros root lv. cbn [FiltChainAddr.nav1f]. apply navp_ext. intros v. unfold QueryAddr.dnf_test. cbn [existsb forallb QueryAddr.bq_test]. destruct o; reflexivity. Qed.
   (* parentheses around a sub-query change nothing *)
   Lemma parenthesised_query_spellings t : same_step (FT t) (FT (TP t)).
   Proof. intros root lv. reflexivity. Qed.
